@@ -104,7 +104,8 @@ class AstToDjangoQVisitor(visitor.NodeVisitor):
 
     def visit_Null(self, node: ast.Null) -> str:
         ":meta private:"
-        raise NotImplementedError("Should not be reached")
+        # `x eq null` is handled in `visit_Compare`, anything else can't be expressed:
+        raise ex.TypeException("null", "null")
 
     def visit_Integer(self, node: ast.Integer) -> Value:
         ":meta private:"
